@@ -147,6 +147,12 @@ def check_arena(run, db):
                     if t.get('short') == 'allocate_block':
                         if any(c[1].get('short') in ('push', 'steal_top') for c in s.calls) or s.writes:
                             probs.append('state is changed before the upstream call returned: a failing block source leaves a half-registered block')
+                    elif up and (s.throw_at_fwd or 0) >= 1:
+                        # the upstream call has returned a block; whatever throws now must find it registered
+                        done = s.calls[:s.throw_at_call] if s.throw_at_call is not None else s.calls
+                        if not any(c[1].get('short') == 'push' for c in done):
+                            probs.append('`%s` may throw after the block source has handed out a block and before the block is pushed onto the used stack: '
+                                         'that block is on no list and is never given back' % tstr(t)[:70])
             if ups == 0:
                 probs.append('no path asks the block source')
             if probs:
